@@ -509,6 +509,27 @@ def scrapeParse (c : Cfg) : List Str → Except PyExc (List URLInfo)
       | .error e => .error e
       | .ok r => .ok (i :: r)
 
+/-- `'_escaped_fragment_='` -/
+def sEscFrag : Str := [95, 101, 115, 99, 97, 112, 101, 100, 95, 102, 114, 97, 103, 109, 101, 110, 116, 95, 61]
+
+/-- `URLRewriter.rewrite` with `hash_fragment=True`, `session_id=False` (wpull/urlrewrite.py, `--escaped-fragment`):
+for an http(s) URL whose fragment starts with `!` the normal form, `?` or `&`, `_escaped_fragment_=` and the
+rest of the fragment are concatenated (the URL is data, never a format string) and parsed with the logging
+variant; an unparseable result keeps the original -/
+def rewriteEscaped (c : Cfg) (i : URLInfo) : Except PyExc URLInfo :=
+  if i.scheme == some sHttp || i.scheme == some sHttps then
+    match i.fragment with
+    | some (33 :: rest) =>
+      match i.url with
+      | .error e => .error e
+      | .ok u =>
+        match parseOrLog c (u ++ [if (i.query.getD []).isEmpty then 63 else 38] ++ sEscFrag ++ rest) with
+        | .error e => .error e
+        | .ok (some j) => .ok j
+        | .ok none => .ok i
+    | _ => .ok i
+  else .ok i
+
 /-- `ProcessingRule.add_extra_urls` (wpull/processor/rule.py, `--sitemaps`, level-0 URL): the two texts
 `'{scheme}://{hostname_with_port}/robots.txt'` and `…/sitemap.xml` -/
 def extraUrlTexts (i : URLInfo) : Except PyExc (List Str) :=
